@@ -1,6 +1,1171 @@
-//! C33 — not implemented yet.
+//! C33 — Memory pool accounting is exact under concurrency.
+//!
+//! Code under test: `execution::memory::{MemoryPool, MemoryReservation}`.
+//!
+//! The engine (feature `verif-hooks`) calls `verif_hooks::yield_point(site)`
+//! before every atomic step of the pool ("try_allocate.load",
+//! "try_allocate.cas", "allocate.add", "resize.rmw", "release.sub").  This
+//! module installs a per-thread callback that implements a **token-passing
+//! schedule controller**: the logical threads are real OS threads, exactly one
+//! holds the token and runs, and at every yield point the next entry of the
+//! case's schedule decides who runs next.  A run is therefore a pure function
+//! of (pool limit, programs, schedule); it replays and shrinks like any case.
+//!
+//! Oracle: a sequential reference (`model_used`, kept in u128) stepped at the
+//! linearisation point of every operation.  Every operation's only effect on
+//! the pool is its last atomic step and no other thread can run between that
+//! step and the operation's return (there is no yield point in between), so
+//! the reference is stepped when the operation returns:
+//!   * a granted `try_allocate(n)` must have had `model_used + n <= max`;
+//!   * after every operation `pool.used() == model_used` = Σ sizes of live
+//!     reservations (threads parked in the middle of an operation have not
+//!     performed its effect yet), hence `used` never wraps or underflows;
+//!   * when every thread has finished and dropped everything, `used() == 0`.
+//!
+//! Checks
+//!  * `all_schedules`  — case = (limit, 2 programs of ≤3 ops); EVERY schedule of
+//!    that pair is enumerated (stateless depth-first search over the decision
+//!    points the controller reports).  The exhaustive tier runs a whole family
+//!    of program pairs.
+//!  * `random_schedule` — 2–3 threads, ≤4 ops each, generated schedule.
+//!  * `stress16` — 16 unhooked threads; invariants at quiescence only (and
+//!    `used <= max` throughout when nothing can legally exceed the limit).
 use super::Property;
+use crate::runner::*;
+use proptest::prelude::*;
+use query_engine::execution::{MemoryPool, MemoryReservation};
+use query_engine::verif_hooks::set_yield_callback;
+use serde::{Deserialize, Serialize};
+use std::sync::{Arc, Condvar, Mutex};
+use std::time::Duration;
+
+#[derive(Clone, Debug, Serialize, Deserialize, PartialEq, Eq, Hash)]
+pub enum Op {
+    /// conditional reservation
+    Try(usize),
+    /// forced reservation (may exceed the limit)
+    Alloc(usize),
+    /// resize the `slot`-selected live reservation of this thread to `n` bytes
+    Resize { slot: u8, n: usize },
+    /// drop the `slot`-selected live reservation of this thread
+    Drop { slot: u8 },
+}
+
+fn pick8(sel: u8, len: usize) -> usize {
+    ((sel as usize) * len) >> 8
+}
+
+// ---------------------------------------------------------------------------
+// controller: bookkeeping shared by both back ends
+// ---------------------------------------------------------------------------
+#[derive(Clone, Copy, PartialEq, Debug)]
+enum TryPhase {
+    None,
+    /// at "try_allocate.load": `used` not read yet
+    Load,
+    /// has read `used`, parked at / about to perform the CAS
+    Cas,
+}
+
+struct Ctl {
+    n: usize,
+    finished: Vec<bool>,
+    schedule: Vec<u8>,
+    pos: usize,
+    /// number of options at each decision point that had >= 2 options
+    options: Vec<u8>,
+    /// the (normalised) choice taken at each of those points
+    choices: Vec<u8>,
+    // reference model
+    max: usize,
+    model_used: u128,
+    violation: Option<String>,
+    infra: Option<String>,
+    // non-triviality bookkeeping
+    phase: Vec<TryPhase>,
+    two_in_try: bool,
+    resize_in_try: bool,
+    effect_in_try: bool,
+    cas_retries: u32,
+    switches: u32,
+    refused_though_fits: u32,
+    grants: u32,
+    refusals: u32,
+    trace: Vec<String>,
+}
+
+impl Ctl {
+    fn new(max: usize, n: usize, schedule: &[u8]) -> Ctl {
+        Ctl {
+            n,
+            finished: vec![false; n],
+            schedule: schedule.to_vec(),
+            pos: 0,
+            options: vec![],
+            choices: vec![],
+            max,
+            model_used: 0,
+            violation: None,
+            infra: None,
+            phase: vec![TryPhase::None; n],
+            two_in_try: false,
+            resize_in_try: false,
+            effect_in_try: false,
+            cas_retries: 0,
+            switches: 0,
+            refused_though_fits: 0,
+            grants: 0,
+            refusals: 0,
+            trace: vec![],
+        }
+    }
+
+    /// Decide who runs next. `me` = the deciding thread (usize::MAX for the
+    /// start); `me_runnable` = whether `me` itself is an option.  Options: me
+    /// first (if runnable), then the other unfinished threads in cyclic order
+    /// after me.  A schedule entry is consumed only when there are >= 2
+    /// options; an exhausted schedule reads as 0 ("keep going"), an entry
+    /// beyond the number of options wraps — so every schedule is legal and a
+    /// finished thread is never chosen.
+    fn decide(&mut self, me: usize, me_runnable: bool) -> Option<usize> {
+        let mut opts: Vec<usize> = vec![];
+        if me_runnable {
+            opts.push(me);
+        }
+        let start = if me == usize::MAX { 0 } else { me + 1 };
+        for k in 0..self.n {
+            let t = (start + k) % self.n;
+            if t != me && !self.finished[t] {
+                opts.push(t);
+            }
+        }
+        match opts.len() {
+            0 => None,
+            1 => Some(opts[0]),
+            len => {
+                let raw = self.schedule.get(self.pos).copied().unwrap_or(0);
+                self.pos += 1;
+                let ch = (raw as usize) % len;
+                self.options.push(len as u8);
+                self.choices.push(ch as u8);
+                Some(opts[ch])
+            }
+        }
+    }
+
+    /// thread `me` is about to perform the atomic step named `site`
+    fn note_yield(&mut self, me: usize, site: &'static str) {
+        match site {
+            "try_allocate.load" => self.phase[me] = TryPhase::Load,
+            "try_allocate.cas" => {
+                if self.phase[me] == TryPhase::Cas {
+                    self.cas_retries += 1;
+                }
+                self.phase[me] = TryPhase::Cas;
+                if (0..self.n).any(|t| t != me && self.phase[t] == TryPhase::Cas) {
+                    self.two_in_try = true;
+                }
+            }
+            _ => {}
+        }
+        if self.trace.len() < 200 {
+            self.trace.push(format!("t{}@{}", me, site));
+        }
+    }
+
+    fn into_out(self, final_used: usize) -> RunOut {
+        let mut violation = self.violation;
+        if violation.is_none() && final_used != 0 {
+            violation = Some(format!("all reservations dropped but pool.used() = {}", final_used));
+        }
+        RunOut {
+            violation,
+            options: self.options,
+            choices: self.choices,
+            two_in_try: self.two_in_try,
+            resize_in_try: self.resize_in_try,
+            effect_in_try: self.effect_in_try,
+            cas_retries: self.cas_retries,
+            switches: self.switches,
+            refused_though_fits: self.refused_though_fits,
+            grants: self.grants,
+            refusals: self.refusals,
+            infra: self.infra,
+        }
+    }
+}
+
+#[derive(Debug, Default, Clone, PartialEq)]
+pub struct RunOut {
+    pub violation: Option<String>,
+    pub options: Vec<u8>,
+    pub choices: Vec<u8>,
+    pub two_in_try: bool,
+    pub resize_in_try: bool,
+    pub effect_in_try: bool,
+    pub cas_retries: u32,
+    pub switches: u32,
+    pub refused_though_fits: u32,
+    pub grants: u32,
+    pub refusals: u32,
+    pub infra: Option<String>,
+}
+
+/// how a logical thread reaches the controller state
+trait Access {
+    fn ctl<R>(&self, f: impl FnOnce(&mut Ctl) -> R) -> R;
+}
+
+/// apply the effect of a finished operation of thread `me` to the reference
+/// and compare with the pool
+fn step_model<A: Access>(a: &A, pool: &MemoryPool, me: usize, what: &str, delta: i128, grant: Option<usize>) {
+    let used = pool.used();
+    a.ctl(|g| {
+        if let Some(n) = grant {
+            if g.model_used + n as u128 > g.max as u128 && g.violation.is_none() {
+                g.violation = Some(format!(
+                    "t{} {}: granted although used_before({}) + {} > max({}) (trace: {})",
+                    me,
+                    what,
+                    g.model_used,
+                    n,
+                    g.max,
+                    g.trace.join(" ")
+                ));
+            }
+        }
+        let new = g.model_used as i128 + delta;
+        assert!(new >= 0, "harness bug: reference went negative");
+        g.model_used = new as u128;
+        if delta != 0 {
+            let others_in_try = (0..g.n).any(|t| t != me && g.phase[t] == TryPhase::Cas);
+            if others_in_try {
+                g.effect_in_try = true;
+                if what.starts_with("resize") {
+                    g.resize_in_try = true;
+                }
+            }
+        }
+        g.phase[me] = TryPhase::None;
+        if used as u128 != g.model_used && g.violation.is_none() {
+            g.violation = Some(format!(
+                "after t{} {}: pool.used() = {} but the live reservations sum to {} (trace: {})",
+                me,
+                what,
+                used,
+                g.model_used,
+                g.trace.join(" ")
+            ));
+        }
+        if g.trace.len() < 200 {
+            g.trace.push(format!("t{}:{}={}", me, what, used));
+        }
+    })
+}
+
+fn run_program<'p, A: Access>(a: &A, pool: &'p MemoryPool, me: usize, prog: &[Op]) {
+    let mut live: Vec<MemoryReservation<'p>> = vec![];
+    for op in prog {
+        match *op {
+            Op::Try(n) => match pool.try_allocate(n) {
+                Some(res) => {
+                    step_model(a, pool, me, &format!("try_allocate({})->Some", n), n as i128, Some(n));
+                    live.push(res);
+                    a.ctl(|g| g.grants += 1);
+                }
+                None => {
+                    // not demanded by the property, only measured
+                    a.ctl(|g| {
+                        if g.model_used + n as u128 <= g.max as u128 {
+                            g.refused_though_fits += 1;
+                        }
+                        g.refusals += 1;
+                    });
+                    step_model(a, pool, me, &format!("try_allocate({})->None", n), 0, None);
+                }
+            },
+            Op::Alloc(n) => {
+                let res = pool.allocate(n);
+                step_model(a, pool, me, &format!("allocate({})", n), n as i128, None);
+                live.push(res);
+            }
+            Op::Resize { slot, n } => {
+                if live.is_empty() {
+                    continue;
+                }
+                let i = pick8(slot, live.len());
+                let old = live[i].size();
+                live[i].resize(n);
+                step_model(a, pool, me, &format!("resize({}->{})", old, n), n as i128 - old as i128, None);
+                let now = live[i].size();
+                if now != n {
+                    a.ctl(|g| {
+                        if g.violation.is_none() {
+                            g.violation = Some(format!("t{} resize: size() = {} after resize to {}", me, now, n));
+                        }
+                    });
+                }
+            }
+            Op::Drop { slot } => {
+                if live.is_empty() {
+                    continue;
+                }
+                let i = pick8(slot, live.len());
+                let res = live.remove(i);
+                let sz = res.size();
+                drop(res);
+                step_model(a, pool, me, &format!("drop({})", sz), -(sz as i128), None);
+            }
+        }
+    }
+    // end of program: drop what is left, oldest first
+    while !live.is_empty() {
+        let res = live.remove(0);
+        let sz = res.size();
+        drop(res);
+        step_model(a, pool, me, &format!("drop({})", sz), -(sz as i128), None);
+    }
+}
+
+fn panic_text(e: Box<dyn std::any::Any + Send>) -> String {
+    e.downcast_ref::<&str>()
+        .map(|s| s.to_string())
+        .or_else(|| e.downcast_ref::<String>().cloned())
+        .unwrap_or_else(|| "panic".into())
+}
+
+fn note_panic(g: &mut Ctl, me: usize, msg: String) {
+    if msg.starts_with("harness bug") {
+        g.infra = Some(msg);
+    } else if g.violation.is_none() {
+        g.violation = Some(format!("t{} panicked inside a pool operation: {}", me, msg));
+    }
+}
+
+// ---------------------------------------------------------------------------
+// back end 1: real OS threads, token passing over a mutex + condvar
+// ---------------------------------------------------------------------------
+struct Shared {
+    /// (controller, thread holding the token; usize::MAX = nobody)
+    m: Mutex<(Ctl, usize, bool)>,
+    cv: Condvar,
+}
+const WAIT_LIMIT: Duration = Duration::from_secs(120);
+
+impl Access for Arc<Shared> {
+    fn ctl<R>(&self, f: impl FnOnce(&mut Ctl) -> R) -> R {
+        let mut g = self.m.lock().unwrap_or_else(|e| e.into_inner());
+        f(&mut g.0)
+    }
+}
+
+impl Shared {
+    fn wait_for_token(&self, mut g: std::sync::MutexGuard<'_, (Ctl, usize, bool)>, me: usize) {
+        while g.1 != me {
+            let (g2, to) = self.cv.wait_timeout(g, WAIT_LIMIT).unwrap_or_else(|e| e.into_inner());
+            g = g2;
+            if to.timed_out() && g.1 != me {
+                // never hang the process: run on without the token and report
+                // the run as an infrastructure failure
+                g.2 = true;
+                return;
+            }
+        }
+    }
+    fn yield_at(&self, me: usize, site: &'static str) {
+        if std::thread::panicking() {
+            return;
+        }
+        let mut g = self.m.lock().unwrap_or_else(|e| e.into_inner());
+        if g.2 {
+            return;
+        }
+        g.0.note_yield(me, site);
+        let next = g.0.decide(me, true).expect("the yielding thread is runnable");
+        if next != me {
+            g.0.switches += 1;
+            g.1 = next;
+            self.cv.notify_all();
+            self.wait_for_token(g, me);
+        }
+    }
+    fn finish(&self, me: usize) {
+        let mut g = self.m.lock().unwrap_or_else(|e| e.into_inner());
+        g.0.finished[me] = true;
+        g.0.phase[me] = TryPhase::None;
+        g.1 = g.0.decide(me, false).unwrap_or(usize::MAX);
+        self.cv.notify_all();
+    }
+}
+
+/// One controlled run on real OS threads. Pure function of its arguments.
+pub fn run_threads(max: usize, programs: &[Vec<Op>], schedule: &[u8]) -> RunOut {
+    let n = programs.len();
+    if n == 0 {
+        return RunOut::default();
+    }
+    let pool = MemoryPool::new(max);
+    let sh = Arc::new(Shared { m: Mutex::new((Ctl::new(max, n, schedule), usize::MAX, false)), cv: Condvar::new() });
+    std::thread::scope(|s| {
+        for (me, prog) in programs.iter().enumerate() {
+            let sh = sh.clone();
+            let pool = &pool;
+            s.spawn(move || {
+                let cb_sh = sh.clone();
+                set_yield_callback(Some(Box::new(move |site| cb_sh.yield_at(me, site))));
+                {
+                    let g = sh.m.lock().unwrap_or_else(|e| e.into_inner());
+                    sh.wait_for_token(g, me);
+                }
+                let r = std::panic::catch_unwind(std::panic::AssertUnwindSafe(|| run_program(&sh, pool, me, prog)));
+                set_yield_callback(None);
+                if let Err(e) = r {
+                    let msg = panic_text(e);
+                    sh.ctl(|g| note_panic(g, me, msg));
+                }
+                sh.finish(me);
+            });
+        }
+        // hand the token to the first thread
+        let mut g = sh.m.lock().unwrap_or_else(|e| e.into_inner());
+        g.1 = g.0.decide(usize::MAX, false).unwrap();
+        drop(g);
+        sh.cv.notify_all();
+    });
+    let sh = Arc::try_unwrap(sh).ok().expect("all threads joined");
+    let (mut ctl, _, timed_out) = sh.m.into_inner().unwrap_or_else(|e| e.into_inner());
+    if timed_out {
+        ctl.infra = Some("controller wait timed out (harness deadlock?)".into());
+    }
+    ctl.into_out(pool.used())
+}
+
+// ---------------------------------------------------------------------------
+// back end 2: the same logical threads as user-level contexts on ONE OS thread
+// (ucontext).  Identical decisions, identical bookkeeping; a context switch
+// costs well under a microsecond and does not depend on how busy the machine
+// is, which is what makes exhaustive enumeration affordable.  `agree` checks
+// that both back ends produce identical runs.
+// ---------------------------------------------------------------------------
+#[cfg(all(target_os = "linux", target_env = "gnu"))]
+mod coro {
+    use super::*;
+    use std::cell::{Cell, RefCell, UnsafeCell};
+
+    const STACK: usize = 256 * 1024;
+
+    pub struct CoRun<'a> {
+        pub ctl: RefCell<Ctl>,
+        pub pool: &'a MemoryPool,
+        pub programs: &'a [Vec<Op>],
+        pub main: UnsafeCell<libc::ucontext_t>,
+        pub ctxs: Vec<UnsafeCell<libc::ucontext_t>>,
+        pub current: Cell<usize>,
+    }
+    thread_local! {
+        static CORUN: Cell<*const ()> = const { Cell::new(std::ptr::null()) };
+        static STACKS: RefCell<Vec<Vec<u8>>> = const { RefCell::new(Vec::new()) };
+    }
+    struct CoAccess<'r, 'a>(&'r CoRun<'a>);
+    impl<'r, 'a> Access for CoAccess<'r, 'a> {
+        fn ctl<R>(&self, f: impl FnOnce(&mut Ctl) -> R) -> R {
+            f(&mut self.0.ctl.borrow_mut())
+        }
+    }
+
+    fn current_run<'x>() -> &'x CoRun<'x> {
+        let p = CORUN.with(|c| c.get());
+        assert!(!p.is_null(), "harness bug: no coroutine run installed");
+        unsafe { &*(p as *const CoRun<'x>) }
+    }
+
+    /// the yield callback: note the step, go back to the scheduler
+    fn co_yield(site: &'static str) {
+        if std::thread::panicking() {
+            return;
+        }
+        let run = current_run();
+        let me = run.current.get();
+        run.ctl.borrow_mut().note_yield(me, site);
+        unsafe {
+            libc::swapcontext(run.ctxs[me].get(), run.main.get());
+        }
+    }
+
+    extern "C" fn co_entry() {
+        let run = current_run();
+        let me = run.current.get();
+        let r = std::panic::catch_unwind(std::panic::AssertUnwindSafe(|| {
+            run_program(&CoAccess(run), run.pool, me, &run.programs[me])
+        }));
+        {
+            let mut g = run.ctl.borrow_mut();
+            if let Err(e) = r {
+                note_panic(&mut g, me, panic_text(e));
+            }
+            g.finished[me] = true;
+            g.phase[me] = TryPhase::None;
+        }
+        unsafe {
+            libc::swapcontext(run.ctxs[me].get(), run.main.get());
+        }
+        // never resumed
+        std::process::abort();
+    }
+
+    pub fn run_coro(max: usize, programs: &[Vec<Op>], schedule: &[u8]) -> RunOut {
+        let n = programs.len();
+        if n == 0 {
+            return RunOut::default();
+        }
+        let pool = MemoryPool::new(max);
+        let mut stacks: Vec<Vec<u8>> = STACKS.with(|s| {
+            let mut s = s.borrow_mut();
+            (0..n).map(|_| s.pop().unwrap_or_else(|| vec![0u8; STACK])).collect()
+        });
+        let run = CoRun {
+            ctl: RefCell::new(Ctl::new(max, n, schedule)),
+            pool: &pool,
+            programs,
+            main: UnsafeCell::new(unsafe { std::mem::zeroed() }),
+            ctxs: (0..n).map(|_| UnsafeCell::new(unsafe { std::mem::zeroed() })).collect(),
+            current: Cell::new(usize::MAX),
+        };
+        // `run` does not move from here on (the contexts point into themselves)
+        unsafe {
+            for (i, st) in stacks.iter_mut().enumerate() {
+                let c = run.ctxs[i].get();
+                assert_eq!(libc::getcontext(c), 0, "harness bug: getcontext");
+                (*c).uc_stack.ss_sp = st.as_mut_ptr() as *mut libc::c_void;
+                (*c).uc_stack.ss_size = st.len();
+                (*c).uc_link = run.main.get();
+                libc::makecontext(c, co_entry, 0);
+            }
+        }
+        let prev = CORUN.with(|c| c.replace(&run as *const CoRun as *const ()));
+        assert!(prev.is_null(), "harness bug: nested coroutine run");
+        set_yield_callback(Some(Box::new(co_yield)));
+        let mut last = usize::MAX;
+        let mut last_runnable = false;
+        loop {
+            let next = {
+                let mut g = run.ctl.borrow_mut();
+                let next = g.decide(last, last_runnable);
+                if let Some(nx) = next {
+                    if last_runnable && nx != last {
+                        g.switches += 1;
+                    }
+                }
+                next
+            };
+            let Some(next) = next else { break };
+            run.current.set(next);
+            unsafe {
+                libc::swapcontext(run.main.get(), run.ctxs[next].get());
+            }
+            last = next;
+            last_runnable = !run.ctl.borrow().finished[next];
+        }
+        set_yield_callback(None);
+        CORUN.with(|c| c.set(std::ptr::null()));
+        STACKS.with(|s| s.borrow_mut().extend(stacks.drain(..)));
+        let used = pool.used();
+        run.ctl.into_inner().into_out(used)
+    }
+}
+
+/// One controlled run. Pure function of its arguments (given the engine).
+pub fn run(max: usize, programs: &[Vec<Op>], schedule: &[u8]) -> RunOut {
+    #[cfg(all(target_os = "linux", target_env = "gnu"))]
+    {
+        coro::run_coro(max, programs, schedule)
+    }
+    #[cfg(not(all(target_os = "linux", target_env = "gnu")))]
+    {
+        run_threads(max, programs, schedule)
+    }
+}
+
+fn in_domain(max: usize, programs: &[Vec<Op>]) -> Result<(), String> {
+    // forced sizes must not be able to wrap usize by themselves (callers never
+    // reserve anywhere near usize::MAX); conditional sizes may be anything on a
+    // small pool (they are refused), but on a huge pool they could be granted
+    let mut forced: u128 = 0;
+    for p in programs {
+        for op in p {
+            match op {
+                Op::Alloc(n) | Op::Resize { n, .. } => forced += *n as u128,
+                Op::Try(n) => {
+                    if max as u128 > (1u128 << 40) {
+                        forced += *n as u128
+                    } else {
+                        forced += (*n).min(max) as u128
+                    }
+                }
+                _ => {}
+            }
+        }
+    }
+    if forced >= (1u128 << 62) {
+        return Err("sum of reservable sizes could wrap usize".into());
+    }
+    Ok(())
+}
+
+// ---------------------------------------------------------------------------
+// check 1: all schedules of a program pair
+// ---------------------------------------------------------------------------
+#[derive(Clone, Debug, Serialize, Deserialize)]
+pub struct PairCase {
+    pub max: usize,
+    pub programs: Vec<Vec<Op>>,
+}
+
+/// Enumerate every schedule of the programs depth-first. Returns (number of
+/// schedules, number of non-trivial ones, first violation with its schedule).
+pub fn explore(max: usize, programs: &[Vec<Op>], limit: u64) -> (u64, u64, Option<(Vec<u8>, String)>, Option<String>, bool) {
+    let mut sched: Vec<u8> = vec![];
+    let mut count = 0u64;
+    let mut nt = 0u64;
+    loop {
+        let o = run(max, programs, &sched);
+        count += 1;
+        if let Some(i) = o.infra {
+            return (count, nt, None, Some(i), false);
+        }
+        if o.two_in_try || o.resize_in_try {
+            nt += 1;
+        }
+        if let Some(v) = o.violation {
+            return (count, nt, Some((o.choices.clone(), v)), None, false);
+        }
+        // odometer: last decision that still has an untried option
+        let mut i = o.choices.len();
+        let mut next = None;
+        while i > 0 {
+            i -= 1;
+            if o.choices[i] + 1 < o.options[i] {
+                let mut s = o.choices[..i].to_vec();
+                s.push(o.choices[i] + 1);
+                next = Some(s);
+                break;
+            }
+        }
+        match next {
+            Some(s) => sched = s,
+            None => return (count, nt, None, None, true),
+        }
+        if count >= limit {
+            return (count, nt, None, None, false);
+        }
+    }
+}
+
+/// the op alphabet of the exhaustive family on a pool of 4 bytes
+fn alphabet(tier: Tier) -> Vec<Op> {
+    let mut a = vec![
+        Op::Try(2),
+        Op::Try(3),
+        Op::Alloc(2),
+        Op::Resize { slot: 255, n: 4 }, // grow the newest
+        Op::Resize { slot: 255, n: 1 }, // shrink the newest
+        Op::Drop { slot: 0 },           // drop the oldest
+    ];
+    if tier == Tier::Thorough {
+        a.push(Op::Try(4));
+        a.push(Op::Resize { slot: 0, n: 0 });
+    }
+    a
+}
+
+/// all programs of <= `len` ops in which resize/drop only follow a reservation
+fn programs_upto(alpha: &[Op], len: usize) -> Vec<Vec<Op>> {
+    let mut all: Vec<Vec<Op>> = vec![vec![]];
+    let mut frontier: Vec<Vec<Op>> = vec![vec![]];
+    for _ in 0..len {
+        let mut next = vec![];
+        for p in &frontier {
+            // may a reservation be live here? (try counts as maybe)
+            let mut maybe_live = 0i32;
+            for op in p {
+                match op {
+                    Op::Try(_) | Op::Alloc(_) => maybe_live += 1,
+                    Op::Drop { .. } => maybe_live = (maybe_live - 1).max(0),
+                    _ => {}
+                }
+            }
+            for op in alpha {
+                if matches!(op, Op::Resize { .. } | Op::Drop { .. }) && maybe_live == 0 {
+                    continue;
+                }
+                let mut q = p.clone();
+                q.push(op.clone());
+                next.push(q);
+            }
+        }
+        all.extend(next.iter().cloned());
+        frontier = next;
+    }
+    all
+}
+
+fn steps_estimate(p: &[Op]) -> u64 {
+    // yield points of a program without contention (try = 2, others 1, plus the final drops)
+    let mut s = 0;
+    let mut live = 0i64;
+    for op in p {
+        match op {
+            Op::Try(_) => {
+                s += 2;
+                live += 1
+            }
+            Op::Alloc(_) => {
+                s += 1;
+                live += 1
+            }
+            Op::Resize { .. } => s += 1,
+            Op::Drop { .. } => {
+                s += 1;
+                live = (live - 1).max(0)
+            }
+        }
+    }
+    s + live.max(0) as u64
+}
+
+fn binom(n: u64, k: u64) -> u64 {
+    let k = k.min(n - k);
+    let mut r = 1u64;
+    for i in 0..k {
+        r = r * (n - i) / (i + 1);
+    }
+    r
+}
+
+pub struct AllSchedules;
+impl Check for AllSchedules {
+    type Case = PairCase;
+    fn name(&self) -> &'static str {
+        "all_schedules"
+    }
+    fn rule(&self) -> &'static str {
+        "case = a pair of thread programs whose COMPLETE schedule space was enumerated; non-trivial when some schedule had two threads both between the load and the CAS of try_allocate, or a resize landing between another thread's load and CAS"
+    }
+    fn cases(&self, _tier: Tier) -> u32 {
+        0
+    }
+    fn strategy(&self, _tier: Tier) -> BoxedStrategy<PairCase> {
+        Just(PairCase { max: 4, programs: vec![vec![], vec![]] }).boxed()
+    }
+    fn exhaustive(&self, tier: Tier) -> Option<Box<dyn Iterator<Item = PairCase> + '_>> {
+        let alpha = alphabet(tier);
+        let progs = programs_upto(&alpha, 3);
+        // quick: every pair whose uncontended interleaving count is small, so the
+        // whole tier stays within fixed work; thorough: every pair
+        let budget = tier.pick(300u64, u64::MAX);
+        let mut v = vec![];
+        for (i, a) in progs.iter().enumerate() {
+            for b in progs.iter().skip(i) {
+                // threads are interchangeable: unordered pairs
+                let (sa, sb) = (steps_estimate(a), steps_estimate(b));
+                if sa == 0 || sb == 0 {
+                    continue; // no concurrency
+                }
+                if binom(sa + sb, sa) > budget {
+                    continue;
+                }
+                v.push(PairCase { max: 4, programs: vec![a.clone(), b.clone()] });
+            }
+        }
+        Some(Box::new(v.into_iter()))
+    }
+    fn test(&self, c: &PairCase, obs: &mut Obs) -> Verdict {
+        if let Err(e) = in_domain(c.max, &c.programs) {
+            return Verdict::Discard(e);
+        }
+        let (count, nt, viol, infra, complete) = explore(c.max, &c.programs, 5_000_000);
+        if let Some(i) = infra {
+            panic!("infrastructure: {}", i);
+        }
+        obs.nontrivial(nt > 0);
+        obs.label(format!(
+            "schedules:{}",
+            match count {
+                0..=9 => "1-9",
+                10..=99 => "10-99",
+                100..=999 => "100-999",
+                1000..=9999 => "1e3-1e4",
+                _ => ">=1e4",
+            }
+        ));
+        if !complete && viol.is_none() {
+            obs.label("enumeration-capped");
+        }
+        obs.sample(serde_json::json!({"max": c.max, "programs": c.programs, "schedules": count, "nontrivial_schedules": nt}));
+        SCHEDULES_RUN.fetch_add(count, std::sync::atomic::Ordering::Relaxed);
+        match viol {
+            None => Verdict::Pass,
+            Some((sched, msg)) => Verdict::Fail(format!(
+                "{} [schedule #{} of this pair; single-run case for check random_schedule: {}]",
+                msg,
+                count,
+                serde_json::json!({"max": c.max, "programs": c.programs, "schedule": sched})
+            )),
+        }
+    }
+}
+pub static SCHEDULES_RUN: std::sync::atomic::AtomicU64 = std::sync::atomic::AtomicU64::new(0);
+
+// ---------------------------------------------------------------------------
+// check 2: generated programs and schedule
+// ---------------------------------------------------------------------------
+#[derive(Clone, Debug, Serialize, Deserialize)]
+pub struct SchedCase {
+    pub max: usize,
+    pub programs: Vec<Vec<Op>>,
+    pub schedule: Vec<u8>,
+}
+
+fn op_strategy(max: usize) -> BoxedStrategy<Op> {
+    // on an effectively unbounded pool every conditional size can be granted:
+    // keep them small there (sum of live sizes must stay far below usize::MAX)
+    let cap = if max as u128 > (1u128 << 40) { 16 } else { max };
+    let small = prop_oneof![
+        6 => 0usize..6,
+        2 => Just(cap),
+        1 => Just(cap.saturating_add(1)),
+        1 => Just(cap / 2 + 1),
+        1 => 0usize..40,
+    ];
+    let small2 = small.clone();
+    let small3 = small.clone();
+    let huge_try: BoxedStrategy<usize> = if max as u128 > (1u128 << 40) {
+        (0usize..6).boxed()
+    } else {
+        prop_oneof![Just(usize::MAX), Just(usize::MAX - 1), Just(usize::MAX - max), Just(usize::MAX / 2 + 1)].boxed()
+    };
+    prop_oneof![
+        10 => small.prop_map(Op::Try),
+        1 => huge_try.prop_map(Op::Try),
+        3 => small2.prop_map(|n| Op::Alloc(n.min(1 << 20))),
+        4 => (any::<u8>(), small3).prop_map(|(slot, n)| Op::Resize { slot, n: n.min(1 << 20) }),
+        4 => any::<u8>().prop_map(|slot| Op::Drop { slot }),
+    ]
+    .boxed()
+}
+
+pub struct RandomSchedule;
+impl Check for RandomSchedule {
+    type Case = SchedCase;
+    fn name(&self) -> &'static str {
+        "random_schedule"
+    }
+    fn rule(&self) -> &'static str {
+        "in this run two threads were both between the load and the CAS of try_allocate, or a resize landed between another thread's load and CAS"
+    }
+    fn cases(&self, tier: Tier) -> u32 {
+        tier.pick(20_000, 2_000_000)
+    }
+    fn strategy(&self, _tier: Tier) -> BoxedStrategy<SchedCase> {
+        let max = prop_oneof![
+            1 => Just(0usize),
+            1 => Just(1usize),
+            4 => Just(4usize),
+            3 => Just(7usize),
+            2 => Just(16usize),
+            1 => Just(usize::MAX),
+        ];
+        (max, 2usize..=3)
+            .prop_flat_map(|(max, nthreads)| {
+                (
+                    Just(max),
+                    prop::collection::vec(prop::collection::vec(op_strategy(max), 1..=4), nthreads),
+                    // a schedule: mostly "switch a lot"
+                    prop::collection::vec(prop_oneof![2 => Just(0u8), 3 => 1u8..3, 1 => any::<u8>()], 0..48),
+                )
+            })
+            .prop_map(|(max, programs, schedule)| SchedCase { max, programs, schedule })
+            .boxed()
+    }
+    fn test(&self, c: &SchedCase, obs: &mut Obs) -> Verdict {
+        if let Err(e) = in_domain(c.max, &c.programs) {
+            return Verdict::Discard(e);
+        }
+        if c.programs.is_empty() || c.programs.len() > 8 {
+            return Verdict::Discard("thread count".into());
+        }
+        let o = run(c.max, &c.programs, &c.schedule);
+        if let Some(i) = o.infra {
+            panic!("infrastructure: {}", i);
+        }
+        obs.nontrivial(o.two_in_try || o.resize_in_try);
+        if o.two_in_try {
+            obs.label("two-threads-between-load-and-cas");
+        }
+        if o.resize_in_try {
+            obs.label("resize-between-load-and-cas");
+        }
+        if o.effect_in_try {
+            obs.label("any-effect-between-load-and-cas");
+        }
+        if o.cas_retries > 0 {
+            obs.label("cas-retry");
+        }
+        if o.refused_though_fits > 0 {
+            obs.label("refused-though-it-fitted(not judged)");
+        }
+        if o.grants > 0 {
+            obs.label("grant");
+        }
+        if o.refusals > 0 {
+            obs.label("refusal");
+        }
+        obs.label(format!("threads:{}", c.programs.len()));
+        obs.label(format!("switches:{}", match o.switches { 0 => "0", 1..=3 => "1-3", 4..=9 => "4-9", _ => ">=10" }));
+        match o.violation {
+            None => Verdict::Pass,
+            Some(v) => Verdict::Fail(v),
+        }
+    }
+}
+
+
+// ---------------------------------------------------------------------------
+// check 2b: the OS-thread back end and the user-context back end agree
+// ---------------------------------------------------------------------------
+pub struct BackendsAgree;
+impl Check for BackendsAgree {
+    type Case = SchedCase;
+    fn name(&self) -> &'static str {
+        "os_threads_agree"
+    }
+    fn rule(&self) -> &'static str {
+        "the run on real OS threads (token passing) had at least one context switch; it must equal the single-thread user-context run decision for decision"
+    }
+    fn cases(&self, tier: Tier) -> u32 {
+        tier.pick(400, 40_000)
+    }
+    fn workers(&self, _tier: Tier) -> usize {
+        4
+    }
+    fn strategy(&self, tier: Tier) -> BoxedStrategy<SchedCase> {
+        RandomSchedule.strategy(tier)
+    }
+    fn test(&self, c: &SchedCase, obs: &mut Obs) -> Verdict {
+        if let Err(e) = in_domain(c.max, &c.programs) {
+            return Verdict::Discard(e);
+        }
+        if c.programs.is_empty() || c.programs.len() > 8 {
+            return Verdict::Discard("thread count".into());
+        }
+        let a = run_threads(c.max, &c.programs, &c.schedule);
+        if let Some(i) = &a.infra {
+            panic!("infrastructure: {}", i);
+        }
+        obs.nontrivial(a.switches > 0);
+        if let Some(v) = &a.violation {
+            return Verdict::Fail(format!("(OS threads) {}", v));
+        }
+        let b = run(c.max, &c.programs, &c.schedule);
+        if a != b {
+            panic!("harness bug: back ends disagree\n threads: {:?}\n contexts: {:?}", a, b);
+        }
+        Verdict::Pass
+    }
+}
+
+// ---------------------------------------------------------------------------
+// check 3: unhooked stress
+// ---------------------------------------------------------------------------
+#[derive(Clone, Debug, Serialize, Deserialize)]
+pub struct StressCase {
+    pub max: usize,
+    /// one program per thread; each is repeated `rounds` times
+    pub programs: Vec<Vec<Op>>,
+    pub rounds: u32,
+    /// only try/shrink/drop are used, so `used <= max` must hold at all times
+    pub bounded: bool,
+}
+
+pub struct Stress16;
+impl Check for Stress16 {
+    type Case = StressCase;
+    fn name(&self) -> &'static str {
+        "stress16"
+    }
+    fn rule(&self) -> &'static str {
+        "16 free-running threads, at least one grant and one refusal observed"
+    }
+    fn cases(&self, tier: Tier) -> u32 {
+        tier.pick(60, 3000)
+    }
+    fn workers(&self, _tier: Tier) -> usize {
+        1
+    }
+    fn strategy(&self, _tier: Tier) -> BoxedStrategy<StressCase> {
+        (any::<bool>(), prop_oneof![Just(8usize), Just(64usize), Just(1000usize)])
+            .prop_flat_map(|(bounded, max)| {
+                let sz = prop_oneof![4 => 1usize..6, 2 => Just(max / 8 + 1), 1 => Just(max / 2 + 1), 1 => Just(max)];
+                let sz2 = sz.clone();
+                let sz3 = sz.clone();
+                let op = if bounded {
+                    prop_oneof![
+                        6 => sz.prop_map(Op::Try),
+                        2 => any::<u8>().prop_map(|slot| Op::Resize { slot, n: 0 }),
+                        1 => any::<u8>().prop_map(|slot| Op::Resize { slot, n: 1 }),
+                        4 => any::<u8>().prop_map(|slot| Op::Drop { slot }),
+                    ]
+                    .boxed()
+                } else {
+                    prop_oneof![
+                        6 => sz.prop_map(Op::Try),
+                        2 => sz2.prop_map(Op::Alloc),
+                        3 => (any::<u8>(), sz3).prop_map(|(slot, n)| Op::Resize { slot, n }),
+                        4 => any::<u8>().prop_map(|slot| Op::Drop { slot }),
+                    ]
+                    .boxed()
+                };
+                (
+                    Just(bounded),
+                    Just(max),
+                    prop::collection::vec(prop::collection::vec(op, 4..24), 16),
+                    prop_oneof![Just(50u32), Just(400u32)],
+                )
+            })
+            .prop_map(|(bounded, max, programs, rounds)| StressCase { max, programs, rounds, bounded })
+            .boxed()
+    }
+    fn test(&self, c: &StressCase, obs: &mut Obs) -> Verdict {
+        use std::sync::atomic::{AtomicBool, AtomicU64, Ordering};
+        use std::sync::Barrier;
+        if c.bounded {
+            // shrink-only resizes in bounded mode (a replayed file could say otherwise)
+            for p in &c.programs {
+                for op in p {
+                    match op {
+                        Op::Alloc(_) => return Verdict::Discard("bounded case with allocate".into()),
+                        Op::Resize { n, .. } if *n > 1 => return Verdict::Discard("bounded case with growing resize".into()),
+                        Op::Try(0) => return Verdict::Discard("bounded case needs sizes >= 1".into()),
+                        _ => {}
+                    }
+                }
+            }
+        }
+        if let Err(e) = in_domain(c.max, &c.programs) {
+            return Verdict::Discard(e);
+        }
+        let pool = MemoryPool::new(c.max);
+        let nt = c.programs.len();
+        let barrier = Barrier::new(nt + 1);
+        let live_sum = AtomicU64::new(0);
+        let over = AtomicU64::new(0);
+        let grants = AtomicU64::new(0);
+        let refusals = AtomicU64::new(0);
+        let size_bug = AtomicBool::new(false);
+        let mut mid_used = 0usize;
+        let mut mid_live = 0u64;
+        std::thread::scope(|s| {
+            for prog in &c.programs {
+                let (pool, barrier, live_sum, over, grants, refusals, size_bug) = (&pool, &barrier, &live_sum, &over, &grants, &refusals, &size_bug);
+                s.spawn(move || {
+                    let mut live: Vec<MemoryReservation<'_>> = vec![];
+                    barrier.wait();
+                    for _ in 0..c.rounds {
+                        for op in prog {
+                            match *op {
+                                Op::Try(n) => match pool.try_allocate(n) {
+                                    Some(r) => {
+                                        grants.fetch_add(1, Ordering::Relaxed);
+                                        live.push(r)
+                                    }
+                                    None => {
+                                        refusals.fetch_add(1, Ordering::Relaxed);
+                                    }
+                                },
+                                Op::Alloc(n) => live.push(pool.allocate(n)),
+                                Op::Resize { slot, n } => {
+                                    if !live.is_empty() {
+                                        let i = pick8(slot, live.len());
+                                        if c.bounded && n > live[i].size() {
+                                            continue; // bounded mode: shrinks only
+                                        }
+                                        live[i].resize(n);
+                                        if live[i].size() != n {
+                                            size_bug.store(true, Ordering::Relaxed);
+                                        }
+                                    }
+                                }
+                                Op::Drop { slot } => {
+                                    if !live.is_empty() {
+                                        let i = pick8(slot, live.len());
+                                        drop(live.remove(i));
+                                    }
+                                }
+                            }
+                            if c.bounded {
+                                let u = pool.used();
+                                if u > c.max {
+                                    over.fetch_max(u as u64, Ordering::Relaxed);
+                                }
+                            }
+                            // keep the per-thread set small so drops are exercised
+                            if live.len() > 8 {
+                                drop(live.remove(0));
+                            }
+                        }
+                    }
+                    // quiescent point 1: everybody reports what it holds
+                    live_sum.fetch_add(live.iter().map(|r| r.size() as u64).sum::<u64>(), Ordering::SeqCst);
+                    barrier.wait();
+                    // main thread compares here
+                    barrier.wait();
+                    drop(live);
+                });
+            }
+            barrier.wait(); // start
+            barrier.wait(); // all reported
+            mid_used = pool.used();
+            mid_live = live_sum.load(Ordering::SeqCst);
+            barrier.wait(); // release for the drops
+        });
+        let g = grants.load(Ordering::Relaxed);
+        let r = refusals.load(Ordering::Relaxed);
+        obs.nontrivial(g > 0 && r > 0);
+        obs.label(if c.bounded { "bounded(try/shrink/drop)" } else { "all-ops" });
+        obs.sample(serde_json::json!({"max": c.max, "grants": g, "refusals": r, "bounded": c.bounded, "rounds": c.rounds}));
+        if size_bug.load(Ordering::Relaxed) {
+            return Verdict::Fail("size() differs from the requested size after resize".into());
+        }
+        if mid_used as u64 != mid_live {
+            return Verdict::Fail(format!(
+                "at quiescence pool.used() = {} but the 16 threads hold reservations summing to {}",
+                mid_used, mid_live
+            ));
+        }
+        let o = over.load(Ordering::Relaxed);
+        if o > 0 {
+            return Verdict::Fail(format!(
+                "only conditional reservations and shrinks were issued, yet pool.used() reached {} > max {}",
+                o, c.max
+            ));
+        }
+        if pool.used() != 0 {
+            return Verdict::Fail(format!("everything dropped but pool.used() = {}", pool.used()));
+        }
+        Verdict::Pass
+    }
+}
 
 pub fn property() -> Property {
-    Property { id: "C33", level: "exploration", assumptions: &[], checks: vec![] }
+    Property {
+        id: "C33",
+        level: "exploration",
+        assumptions: &[
+            "the sum of all sizes a program can hold at once stays far below usize::MAX (forced allocate/resize are unchecked by design)",
+            "interleavings are taken at the granularity of the pool's atomic steps (the hook's yield points), under sequential consistency — weak-memory reorderings are not explored",
+            "a refused try_allocate that would have fitted is measured but not judged (the property only forbids grants beyond the limit)",
+            "all_schedules: pool limit 4, alphabet {try 2, try 3, allocate 2, grow newest to 4, shrink newest to 1, drop oldest}, 2 threads x <=3 ops; the quick tier keeps the pairs whose uncontended interleaving count is <= 300, the thorough tier all pairs",
+        ],
+        checks: vec![Box::new(AllSchedules), Box::new(RandomSchedule), Box::new(BackendsAgree), Box::new(Stress16)],
+    }
 }
